@@ -6,6 +6,7 @@ import (
 	"go/constant"
 	"go/token"
 	"go/types"
+	"golang.org/x/tools/go/packages"
 	"sort"
 	"strings"
 
@@ -1480,7 +1481,13 @@ func runWSSKeep(c *Ctx, r *Reporter) {
 				good = false
 			}
 		}
-		r.Check(good && nWrites == 1, fd.QName()+"#space-only-if-unrecorded", p.Rel(fd.Decl.Pos()), "the space is written only for nodes that were not recorded", "writeWSS writes its space on a path where the node was recorded as white-space sensitive (or unconditionally)")
+		if !(good && nWrites == 1) && binaryOutputOK(p, pkg) {
+			// the helper writes more than the space (the operator too, say): what counts is what is written for a
+			// binary expression as a whole, which is checked path by path
+			r.Ok(fd.QName()+"#space-only-if-unrecorded", p.Rel(fd.Decl.Pos()), "every path through the formatting of a binary expression writes `left op right` when the node is recorded and `left ␣ op ␣ right` when it is not")
+		} else {
+			r.Check(good && nWrites == 1, fd.QName()+"#space-only-if-unrecorded", p.Rel(fd.Decl.Pos()), "the space is written only for nodes that were not recorded", "writeWSS writes its space on a path where the node was recorded as white-space sensitive (or unconditionally)")
+		}
 	} else {
 		inlineWSS = true // no helper: the guarded space must be found in the formatter's case itself, see (c)
 	}
@@ -1612,6 +1619,10 @@ func runWSSKeep(c *Ctx, r *Reporter) {
 					})
 				}
 				got := strings.Join(seq, " ")
+				if got != "format:Left wss op wss format:Right" && binaryOutputOK(p, pkg) {
+					r.Ok(fd.QName()+"#case:BinaryExpression", p.Rel(cc.Pos()), "every path through the formatting of a binary expression writes `left op right` when the node is recorded and `left ␣ op ␣ right` when it is not")
+					continue
+				}
 				r.Check(got == "format:Left wss op wss format:Right", fd.QName()+"#case:BinaryExpression", p.Rel(cc.Pos()), "left, optional space, operator, optional space, right",
 					"the formatter prints a binary expression as `"+got+"`, expected `format:Left wss op wss format:Right`: a space that does not go through writeWSS (or only on one side) splits or joins list elements")
 			}
@@ -2605,4 +2616,240 @@ func runBlankBefore(c *Ctx, r *Reporter) {
 	} else {
 		r.Undecided("newAccumulations not found")
 	}
+}
+
+// binaryOutputOK: what the formatter writes for a binary expression, path by path. The paths through the
+// BinaryExpression case of (*formatting).format are enumerated on the lowered code, helpers of the package that are
+// handed the node included; each yields the sequence of things written (the left operand, a space, the operator, the
+// right operand, anything else) and what it learnt about the node's entry in the white-space table. Every path must
+// write `left op right` where the entry is known to be set, `left ␣ op ␣ right` where it is known not to be, and no
+// path may write a space or anything else without knowing.
+func binaryOutputOK(p *Program, pkg *packages.Package) bool {
+	fd := FindFunc(pkg, "(*formatting).format")
+	if fd == nil {
+		return false
+	}
+	sf := p.SSAFunc(fd.Obj)
+	if sf == nil {
+		return false
+	}
+	// the block the BinaryExpression case starts in: ok edge of the type test
+	var head *ssa.BasicBlock
+	var node ssa.Value
+	for _, h := range regionFns(sf, 1, nil) {
+		for _, b := range h.Blocks {
+			if len(b.Instrs) == 0 {
+				continue
+			}
+			ifi, ok := b.Instrs[len(b.Instrs)-1].(*ssa.If)
+			if !ok {
+				continue
+			}
+			ex, ok := ifi.Cond.(*ssa.Extract)
+			if !ok || ex.Index != 1 {
+				continue
+			}
+			ta, ok := ex.Tuple.(*ssa.TypeAssert)
+			if !ok {
+				continue
+			}
+			t := ta.AssertedType
+			if pt, ok := t.(*types.Pointer); ok {
+				t = pt.Elem()
+			}
+			if n := namedOf(t); n != nil && n.Obj().Name() == "BinaryExpression" && head == nil {
+				head = b.Succs[0]
+				for _, ref := range *ta.Referrers() {
+					if e0, ok := ref.(*ssa.Extract); ok && e0.Index == 0 {
+						node = e0
+					}
+				}
+			}
+		}
+	}
+	if head == nil || node == nil {
+		return false
+	}
+	type outPath struct {
+		toks []string
+		wss  int // 0 unknown, 1 entry set, 2 entry not set
+	}
+	budget := 5000
+	isWSS := func(v ssa.Value) bool {
+		if lk, ok := v.(*ssa.Lookup); ok && !lk.CommaOk && loadsField(lk.X, "wss") {
+			return true
+		}
+		if ex, ok := v.(*ssa.Extract); ok {
+			if lk, ok := ex.Tuple.(*ssa.Lookup); ok && lk.CommaOk && loadsField(lk.X, "wss") {
+				return true
+			}
+		}
+		return false
+	}
+	var pathsOf func(start *ssa.BasicBlock, stopAtReturn bool, depth int) ([]outPath, bool)
+	pathsOf = func(start *ssa.BasicBlock, stopAtReturn bool, depth int) ([]outPath, bool) {
+		var out []outPath
+		okAll := true
+		onPath := map[*ssa.BasicBlock]bool{}
+		var walk func(b *ssa.BasicBlock, cur outPath)
+		walk = func(b *ssa.BasicBlock, cur outPath) {
+			if budget <= 0 || onPath[b] {
+				okAll = false
+				return
+			}
+			budget--
+			onPath[b] = true
+			defer delete(onPath, b)
+			curs := []outPath{cur}
+			for _, ins := range b.Instrs {
+				call, ok := ins.(*ssa.Call)
+				if !ok || call.Call.StaticCallee() == nil {
+					continue
+				}
+				callee := call.Call.StaticCallee()
+				add := func(tok string) {
+					for i := range curs {
+						curs[i].toks = append(append([]string{}, curs[i].toks...), tok)
+					}
+				}
+				switch {
+				case callee.Name() == "write" || callee.Name() == "writes":
+					for _, a := range call.Call.Args[1:] {
+						vals := []ssa.Value{a}
+						if sl, ok := a.(*ssa.Slice); ok { // variadic writes(a, b)
+							vals = nil
+							if al, ok := sl.X.(*ssa.Alloc); ok {
+								for _, ref := range *al.Referrers() {
+									if ia, ok := ref.(*ssa.IndexAddr); ok {
+										for _, r2 := range *ia.Referrers() {
+											if st, ok := r2.(*ssa.Store); ok {
+												vals = append(vals, st.Val)
+											}
+										}
+									}
+								}
+							}
+						}
+						for _, v := range vals {
+							switch x := v.(type) {
+							case *ssa.Const:
+								if x.Value != nil && x.Value.Kind() == constant.String && constant.StringVal(x.Value) == " " {
+									add("sp")
+								} else {
+									add("other")
+								}
+							case *ssa.Call:
+								if x.Call.StaticCallee() != nil && x.Call.StaticCallee().Name() == "String" && len(x.Call.Args) == 1 && loadsField(x.Call.Args[0], "Op") {
+									add("op")
+								} else {
+									add("other")
+								}
+							default:
+								add("other")
+							}
+						}
+					}
+				case callee.Name() == "format" && len(call.Call.Args) == 2:
+					switch nodeFieldOf(call.Call.Args[1], 0) {
+					case "Left":
+						add("left")
+					case "Right":
+						add("right")
+					default:
+						add("other")
+					}
+				case callee.Pkg == sf.Pkg && len(callee.Blocks) > 0 && depth < 2:
+					// a helper that is handed the node: its own paths continue these
+					sub, subOK := pathsOf(callee.Blocks[0], true, depth+1)
+					if !subOK {
+						okAll = false
+						return
+					}
+					var next []outPath
+					for _, c := range curs {
+						for _, sp := range sub {
+							if c.wss != 0 && sp.wss != 0 && c.wss != sp.wss {
+								continue
+							}
+							w := c.wss
+							if w == 0 {
+								w = sp.wss
+							}
+							next = append(next, outPath{append(append([]string{}, c.toks...), sp.toks...), w})
+						}
+					}
+					curs = next
+				}
+			}
+			last := b.Instrs[len(b.Instrs)-1]
+			switch x := last.(type) {
+			case *ssa.Return:
+				out = append(out, curs...)
+			case *ssa.Jump:
+				if !stopAtReturn && !start.Dominates(b.Succs[0]) {
+					out = append(out, curs...) // left the case
+					return
+				}
+				for _, c := range curs {
+					walk(b.Succs[0], c)
+				}
+			case *ssa.If:
+				cond, flip := x.Cond, false
+				for {
+					if u, ok := cond.(*ssa.UnOp); ok && u.Op == token.NOT {
+						cond, flip = u.X, !flip
+						continue
+					}
+					break
+				}
+				for i, sx := range b.Succs {
+					if !stopAtReturn && !start.Dominates(sx) {
+						out = append(out, curs...)
+						continue
+					}
+					for _, c := range curs {
+						if isWSS(cond) {
+							set := (i == 0) != flip
+							w := 2
+							if set {
+								w = 1
+							}
+							if c.wss != 0 && c.wss != w {
+								continue
+							}
+							c.wss = w
+						}
+						walk(sx, c)
+					}
+				}
+			default:
+				out = append(out, curs...)
+			}
+		}
+		walk(start, outPath{})
+		return out, okAll
+	}
+	paths, ok := pathsOf(head, false, 0)
+	if !ok || len(paths) == 0 {
+		return false
+	}
+	sawTight, sawLoose := false, false
+	for _, pa := range paths {
+		got := strings.Join(pa.toks, " ")
+		switch pa.wss {
+		case 1:
+			if got != "left op right" {
+				return false
+			}
+			sawTight = true
+		case 2:
+			if got != "left sp op sp right" {
+				return false
+			}
+			sawLoose = true
+		default:
+			return false
+		}
+	}
+	return sawTight && sawLoose
 }
